@@ -166,7 +166,8 @@ Section P.
     - destruct (its_accept_operatorship w1 c from) as [[w3 ev3]|] eqn:X; inversion F; subst.
       unfold its_accept_operatorship in X. inv_some X. inversion X; subst. same.
     - destruct (get_tm w tma) as [t|]; [|same].
-      destruct o; try same; destruct (tstep t (iw_led w) _) as [[t' l'] out]; same.
+      destruct o; try same; destruct (tstep t (iw_led w) _) as [[t' l'] out]; try same.
+      cbn [fst]. destruct (to_ok out); same.
     - destruct (find_ip id (iw_pend w)) as [p|]; [|same].
       destruct (ip_kind p); try same. destruct (ip_stage p); try same.
       destruct (if ok then _ else _); same.
